@@ -171,8 +171,10 @@ def culled (ctx : Ctx) (a b c : List α) : Bool :=
 /-- Sort key of render.rs:180-190 (sum of clip-space z). -/
 def sortKey (t : Tri α) : α := t.a.pos.z + t.b.pos.z + t.c.pos.z
 
-/-- Stable insertion sort standing in for `sort_unstable_by` (the order of equal keys is unspecified
-in Rust; property statements quantify over it, generators avoid ties). -/
+/-- Insertion sort standing in for `sort_unstable_by`. Equal keys come out in REVERSED submission order
+(`foldr` inserts the last triangle first and `insertBy` puts a new element after its equals); the order of
+equal keys is unspecified in Rust, no theorem depends on it (`render_painter` handles ties through
+`SameInput`), and generators avoid ties. -/
 def insertBy (lt : Tri α → Tri α → Bool) (t : Tri α) : List (Tri α) → List (Tri α)
   | [] => [t]
   | u :: us => if lt t u then t :: u :: us else u :: insertBy lt t us
